@@ -277,10 +277,11 @@ def judge_mini(ctx, r, rp, col, stats, k):
     col.add(r['tap'], r['ops'], r['cfg'], r['final'], rp, with_keys=(k % 2 == 0))
     ctx.note_case(('mini', json.dumps(sc, sort_keys=True)), nontrivial=info['newkeys'] >= 2)
     ctx.count('mini.role.' + sc['role'])
+    ctx.count('mini.comp.%s.exchanges' % sc.get('comp', 'none'), r['exchanges'])
 
 
 def stage_mini(ctx):
-    n = 150 if ctx.tier == 'thorough' else 15
+    n = 180 if ctx.tier == 'thorough' else 18
     col = Collector()
     stats = {'exchanges': 0, 'keyed': 0, 'sessions': 0, 'old_key_checks': 0, 'alg_changes': 0, 'tails': 0}
     for k in range(n):
